@@ -58,10 +58,10 @@ def make_project(name, strings, namespaces):
     if namespaces:
         small_en = {"t": "map", "e": [["z", S(strings[0])], ["y", S(["n", "2", "e"])]]}
         small_fr = {"t": "map", "e": [["z", S(strings[-1])], ["y", S(["n", "2", "f"])]]}
-        files = [["en/n1", en], ["fr/n1", fr], ["en/n2", small_en], ["fr/n2", small_fr]]
-        cfg = {"default": "en", "locales": ["en", "fr"], "namespaces": ["n1", "n2"]}
-        units = [("en", "n1"), ("fr", "n1"), ("en", "n2"), ("fr", "n2")]
-        key_of_unit = {"n1": "n1.k0001", "n2": "n2.z"}
+        files = [["en/zz", en], ["fr/zz", fr], ["en/aa", small_en], ["fr/aa", small_fr]]
+        cfg = {"default": "en", "locales": ["en", "fr"], "namespaces": ["zz", "aa"]}
+        units = [("en", "zz"), ("fr", "zz"), ("en", "aa"), ("fr", "aa")]
+        key_of_unit = {"zz": "zz.k0001", "aa": "aa.z"}
     else:
         files = [["en", en], ["fr", fr]]
         cfg = {"default": "en", "locales": ["en", "fr"]}
